@@ -564,5 +564,5 @@ func TestCheck(t *testing.T) {
 		Rule:        "seq: sequential runs of the complete Map and Cache API against a Go-map-with-expiry model, full content compared after every step. sched: 2-3 workers x 1-3 operations x 1-2 keys (cache load/store/load-or-store/delete/sweep/range and map operations) executed under a cooperative scheduler whose switching points are the operation boundaries, the harness callbacks that run unlocked (Range) and the verif scheduling point inside CheckExpirations; every schedule of each configuration is enumerated (DFS) and the history is checked against the per-key sequential specification with porcupine (sweep = nondeterministic 'may remove the key iff expired'; iterating operations with the weak specification of their documentation) plus a final read-out; all 2-worker configurations over a 7-operation alphabet are enumerated exhaustively. sweepcb: a sweep over 2-4 keys (expired, live, never expiring, absent) whose on-expire callbacks themselves prolong, store or delete entries of the same cache, 1-2 sweeps; the final content and the callback log (with what each callback found) must be the outcome of a reference sweep - visit the keys in some order, remove a key iff it still holds the element seen at the start and that element is expired at the visit, then run its callback - for at least one visiting order; all configurations of 2 keys and of 3 expired keys enumerated. drain: 1-4 goroutines storing distinct keys next to 2-4 goroutines calling LoadAndDeleteAll, 150 repetitions per pattern, then a final drain: every stored value comes out of exactly one drain. churn: 2-6 real goroutines on ONE long-lived map and cache, each running a generated cycle of 2-6 operations 200-20000 times (up to some 700000 operations and several hundred thousand removals on the same object); every worker owns a map key and a cache key nobody else writes and must observe the sequential specification on them, whatever the others do on their own keys, on the shared keys and with sweeps and iterations. stress: 2-16 real goroutines released together, 200 repetitions per pattern, call/return stamped with an atomic logical clock, checked with porcupine, under the race detector. Non-trivial = >= 2 workers touch one key with >= 1 write (or a sweep next to a write); distinct by configuration",
 		Assumptions: []string{"switching only at critical-section boundaries is sound for the single-lock operations (they are atomic by construction) and complete for the multi-step ones only as far as a scheduling point exists between their sections", "stress histories cover only the interleavings the runtime produced"},
 		Floor:       500,
-	}, seq, sched, stress, sweepCbEngine(r), drainEngine(r), churnEngine(r))
+	}, seq, sched, stress, sweepCbEngine(r), drainEngine(r), churnEngine(r), expiringEngine(r))
 }
